@@ -62,6 +62,9 @@ fn main() {
         }
     }
     core::install_panic_hook();
+    if tier == Tier::San {
+        cal::set_light_mode();
+    }
     let t0 = Instant::now();
     let mut st = Stats::new();
     let (prop, tiername) = match args[1].as_str() {
